@@ -82,6 +82,7 @@ pub struct RunStats {
     pub audited_writes: u64,
     pub clock_back: u64,
     pub model_diverged: u64,
+    pub unmount_crash_images: u64,
     pub alias_hash_form: u64,
     pub alias_tail_form: u64,
     pub hard_faults: u64,
